@@ -247,7 +247,9 @@ def static_states(root):
     open(empty, "w").close()
     os.chmod(empty, 0o644)
     out.append(("empty-file", empty, "OK", None))
-    out.append(("file-as-dir-component", os.path.join(good, "x.h"), "ANY_ERR", None))
+    # a path that cannot name an existing file is a missing path
+    out.append(("file-as-dir-component", os.path.join(good, "x.h"), "NotExist", None))
+    out.append(("name-too-long", os.path.join(d, "n" * 300 + ".h"), "NotExist", None))
     # permission states, run as an unprivileged user (root ignores mode bits)
     for mode, name in ((0o000, "mode000"), (0o200, "mode200"), (0o040, "mode040"), (0o004, "mode004-other-uid"),
                        (0o044, "mode044"), (0o100, "mode100")):
@@ -309,6 +311,33 @@ def multi_header_states(root):
             ("three-headers", [os.path.join(d, "first.h"), "board_config.h", os.path.join(d, "api.h")], inc, "OK"),
             ("non-last-header-missing-everywhere", ["nowhere_to_be_found.h", os.path.join(d, "api.h")], inc, "ClangDiagnostic"),
             ("last-header-missing", [os.path.join(d, "first.h"), os.path.join(d, "gone.h")], [], "NotExist")]
+
+
+def output_path_states(root):
+    """Output files that cannot be written: generation must still end (with
+    bindings and a warning, or an error value) — never a panic or a hang."""
+    d = os.path.join(root, "outputs")
+    os.makedirs(d, exist_ok=True)
+    hdr = os.path.join(d, "o.h")
+    with open(hdr, "w") as f:
+        f.write('#include "o_inc.h"\nstatic inline int sq(int x) { return x * x; }\nstruct O { inc_t i; };\n')
+    with open(os.path.join(d, "o_inc.h"), "w") as f:
+        f.write("typedef int inc_t;\n")
+    dangling = os.path.join(d, "dangling.d")
+    if os.path.lexists(dangling):
+        os.remove(dangling)
+    os.symlink(os.path.join(d, "no", "such", "dir", "x.d"), dangling)
+    adir = os.path.join(d, "is_a_dir")
+    os.makedirs(adir, exist_ok=True)
+    bad = {"missing-dir": os.path.join(d, "nodir", "deeper", "out"), "dangling-symlink": dangling, "directory": adir,
+           "under-a-file": os.path.join(hdr, "out"), "empty": ""}
+    states = []
+    for name, path in bad.items():
+        states.append((f"depfile-{name}", hdr, ["--depfile", path, "--output", os.path.join(d, "ok.rs")]))
+        if path:
+            states.append((f"wrap-static-fns-{name}", hdr, ["--experimental", "--wrap-static-fns", "--wrap-static-fns-path", path]))
+            states.append((f"graphviz-{name}", hdr, ["--emit-ir-graphviz", path]))
+    return states
 
 
 def config_states():
@@ -431,6 +460,21 @@ def run(tier, seed):
             if v:
                 record(dict(v, state=tag, tier="config"), {"kind": "config", "flags": flags, "expect": expect,
                                                           "observed": obs})
+
+        # ---------------------------------------------------- output paths that cannot be written
+        ops = output_path_states(root)
+        scen = [{"req": {"op": "gen", "job": {"id": tag, "header": h, "flags": list(BASE_FLAGS) + fl}, "arm_steps": True},
+                 "tag": f"out-{tag}", "timeout": 40} for tag, h, fl in ops]
+        res = run_children(scen, work)
+        for (tag, h, fl), (obs, fired) in zip(ops, res):
+            scen_total += 1
+            distinct.add(("output-path", tag, obs.get("kind")))
+            outcomes[obs.get("kind")] = outcomes.get(obs.get("kind"), 0) + 1
+            v = classify(obs, ["output"], None, expect=None)
+            if v:
+                sig = dict(v, state=tag, tier="output-path")
+                sig.pop("message", None)
+                record(sig, {"kind": "output", "state": tag, "observed": obs})
 
         # ---------------------------------------------------- several input headers (library use)
         mh = multi_header_states(root)
@@ -611,6 +655,14 @@ def replay(doc):
                     v = classify(obs, ["static"], None, expect=expect)
                     return bool(v) and v["class"] == doc["signature"]["class"], {"observed": obs}
             raise HarnessError("unknown static state")
+        if kind == "output":
+            for tag, h, fl in output_path_states(root):
+                if tag == doc["state"]:
+                    obs, fired = run_child({"op": "gen", "job": {"id": tag, "header": h, "flags": list(BASE_FLAGS) + fl},
+                                            "arm_steps": True}, [], work, "replay", timeout=40)
+                    v = classify(obs, ["output"], None)
+                    return bool(v) and v["class"] == doc["signature"]["class"], {"observed": obs}
+            raise HarnessError("unknown output-path state")
         if kind == "multi":
             for tag, hs, fl, expect in multi_header_states(root):
                 if tag == doc["state"]:
